@@ -12,7 +12,10 @@ import (
 
 // MetasheetName is the name of metasheet which defines the metadata
 // of each worksheet. Default is "@TABLEAU".
-var MetasheetName = "@TABLEAU"
+var MetasheetName = DefaultMetasheetName
+
+// DefaultMetasheetName is the metasheet name used when none is configured.
+const DefaultMetasheetName = "@TABLEAU"
 
 const SheetKey = "@sheet"
 
